@@ -157,6 +157,14 @@ class Outcome:
     def violation(self, what, replay):
         self.violations.append((what, replay))
 
+    def oracle_only(self, what, replay):
+        """A violation reproduced on the real code by the replay / translator-validation oracle while every
+        solver query held: the defect lies outside the encoded lemmas. It is still a violation of the property on
+        the real code (each oracle checks instances of the property statement itself), so it is reported - and
+        flagged as not decided by the solver."""
+        self.extra.setdefault("violations_outside_the_encoded_lemmas", []).append(what[:400])
+        self.violations.append(("[every solver query held; found by the real-code oracle, i.e. outside the encoded lemmas] " + what, replay))
+
     def known_finding(self, what):
         self.known.append(what)
 
